@@ -3,6 +3,8 @@ package main
 import (
 	"fmt"
 	"go/token"
+	"go/types"
+	"sort"
 
 	"golang.org/x/tools/go/ssa"
 )
@@ -83,4 +85,112 @@ func c03Squash(c *Ctx) {
 		}
 	}
 	c.Floor(rule, 2)
+}
+
+// c03RearrangePrivate implements C03.rearrange-private: Rearrange derives the range-point table from the accumulated
+// points without writing through the accumulator's own slice. The accumulator is used more than once (text form and
+// map form are both derived from it, and AddLocation may follow a Rearrange): sorting it in place or appending the
+// pseudo points to it makes the second derivation see a list that is already sorted/extended/overwritten, and
+// declared subnets disappear from the table (seed c03e). Decided by forward provenance from every load of the
+// receiver's slice-typed fields: such a value (or a re-slice of it) may be read, measured, ranged over and copied
+// FROM; it may not be the destination of append/copy, be sorted, have elements stored into, or be returned.
+func c03RearrangePrivate(c *Ctx) {
+	rule := "C03.rearrange-private"
+	c.Rule(rule, "A8 provenance in (*Rearranger).Rearrange and the same-package functions it hands the slice to: a value loaded from a slice field of the receiver (or a re-slice of it) is never the first argument of append, the destination of copy, an argument of a sort function, the base of an element store, or a result of the function")
+	fn := c.Func("dnsdata", "(*Rearranger).Rearrange")
+	c.Examined(fn)
+	recv := fn.Params[0]
+	tainted := map[ssa.Value]bool{}
+	var work []ssa.Value
+	add := func(v ssa.Value) {
+		if !tainted[v] {
+			tainted[v] = true
+			work = append(work, v)
+		}
+	}
+	nLoads := 0
+	for _, b := range fn.Blocks {
+		for _, in := range b.Instrs {
+			u, ok := in.(*ssa.UnOp)
+			if !ok || u.Op != token.MUL {
+				continue
+			}
+			fa, ok := u.X.(*ssa.FieldAddr)
+			if !ok || fa.X != ssa.Value(recv) {
+				continue
+			}
+			if _, isSlice := u.Type().Underlying().(*types.Slice); isSlice {
+				nLoads++
+				add(u)
+			}
+		}
+	}
+	var bad []string
+	for len(work) > 0 {
+		v := work[0]
+		work = work[1:]
+		refs := v.Referrers()
+		if refs == nil {
+			continue
+		}
+		for _, r := range *refs {
+			switch x := r.(type) {
+			case *ssa.Phi:
+				add(x)
+			case *ssa.Slice:
+				if x.X == v {
+					add(x)
+				}
+			case *ssa.ChangeType:
+				add(x)
+			case *ssa.MakeInterface:
+				add(x)
+			case *ssa.IndexAddr:
+				if x.X == v {
+					for _, rr := range *x.Referrers() {
+						if st, ok := rr.(*ssa.Store); ok && st.Addr == ssa.Value(x) {
+							bad = append(bad, "element store at "+c.relPos(st.Pos()))
+						}
+					}
+				}
+			case *ssa.Return:
+				bad = append(bad, "returned at "+c.relPos(x.Pos()))
+			case *ssa.Store:
+				if x.Val == v {
+					if al, ok := x.Addr.(*ssa.Alloc); ok {
+						// a local variable: loads of it carry the provenance
+						for _, rr := range *al.Referrers() {
+							if ld, ok := rr.(*ssa.UnOp); ok && ld.Op == token.MUL {
+								add(ld)
+							}
+						}
+					}
+				}
+			case ssa.CallInstruction:
+				cc := x.Common()
+				if bi, ok := cc.Value.(*ssa.Builtin); ok {
+					switch bi.Name() {
+					case "append":
+						if len(cc.Args) > 0 && cc.Args[0] == v {
+							bad = append(bad, "append to it at "+c.relPos(x.Pos()))
+						}
+					case "copy":
+						if len(cc.Args) > 0 && cc.Args[0] == v {
+							bad = append(bad, "copy into it at "+c.relPos(x.Pos()))
+						}
+					}
+					continue
+				}
+				f := calleeOf(cc)
+				if f != nil && f.Pkg() != nil && (f.Pkg().Path() == "sort" || f.Pkg().Path() == "slices") {
+					switch f.Name() {
+					case "Sort", "Stable", "Slice", "SliceStable", "SortFunc", "SortStableFunc", "Reverse":
+						bad = append(bad, "sorted in place ("+f.Pkg().Path()+"."+f.Name()+") at "+c.relPos(x.Pos()))
+					}
+				}
+			}
+		}
+	}
+	sort.Strings(bad)
+	c.Check(rule, fnName(fn)+"|receiver-slices-read-only", len(bad) == 0 && nLoads > 0, fn.Pos(), fmt.Sprintf("%d loads of receiver slice fields; writes through them: %v", nLoads, bad))
 }
